@@ -71,6 +71,12 @@ def _protect_trailing_backslashes(wrapped: str, is_last: bool) -> str:
     return "\n".join(lines)
 
 
+# A bare URL or email address (GFM extended autolink) at the end of a line.
+_bare_autolink_at_end_re = re.compile(
+    r"(?:^|\s)(?:(?:https?://|ftp://|www\.)\S+|[\w.+-]+@[\w-]+(?:\.[\w-]+)+)$"
+)
+
+
 def _add_markdown_hard_break_handling(base_wrapper: LineWrapper) -> LineWrapper:
     """
     Augments a LineWrapper to first split the text by Markdown hard breaks,
@@ -112,6 +118,10 @@ def _add_markdown_hard_break_handling(base_wrapper: LineWrapper) -> LineWrapper:
                 wrapped_segment = cur_initial_indent
             if is_last:
                 wrapped_segments.append(wrapped_segment)
+            elif segment.endswith(" ") and _bare_autolink_at_end_re.search(wrapped_segment):
+                # The renderer keeps a space before the break after a bare URL (the backslash
+                # would become part of the link).
+                wrapped_segments.append(wrapped_segment + " \\")
             else:
                 wrapped_segments.append(wrapped_segment + "\\")
 
